@@ -48,8 +48,22 @@ func jobs(ctx *vrun.Ctx) []*job {
 	sg := base()
 	sg.Ignore = []bool{false, true}
 	sg.MaxApp, sg.MaxFlight = pick(2, 3), 2
+	sg.MaxRefused = 1
 	sg.TrackNonces = false
 	sg.Scenarios = []scen{{gI: G[rng.Intn(4)], gR: G[1+rng.Intn(3)], dI: 1, dR: 0, hello: "v2"}}
+	if !ctx.Thorough {
+		// quick: one scenario with faults and no refused sends, one with a
+		// refused oversized send per sender (at every position) and no faults;
+		// thorough: both together
+		a, b := sg.Scenarios[0], sg.Scenarios[0]
+		a.noRefuse = true
+		b.noFaults = true
+		b.gI, b.gR = G[rng.Intn(6)], G[rng.Intn(6)]
+		if a.gI == b.gI && a.gR == b.gR {
+			b.dI, b.dR = 0, 1
+		}
+		sg.Scenarios = []scen{a, b}
+	}
 	js = append(js, &job{name: "stream-graph", p: sg, mode: "graph", maxPaths: pick(3000, 0)})
 
 	// exhaustive invariants, two faults, enough packets for two rekey
@@ -62,6 +76,7 @@ func jobs(ctx *vrun.Ctx) []*job {
 		s2 := base()
 		s2.Ignore = []bool{false, true}
 		s2.MaxApp, s2.MaxFlight, s2.MaxFaults = 6, 2, 2
+		s2.MaxRefused = 1
 		s2.Senders = []string{snd}
 		s2.GarbageLens, s2.Decoys = []int{0, 15}, []int{0, 1}
 		if !ctx.Thorough {
@@ -73,6 +88,7 @@ func jobs(ctx *vrun.Ctx) []*job {
 	s2s := base()
 	s2s.Ignore = []bool{false, true}
 	s2s.MaxApp, s2s.MaxFlight, s2s.MaxFaults = 6, 2, 2
+	s2s.MaxRefused = 1
 	s2s.GarbageLens, s2s.Decoys = []int{0, 1, 15, 16}, []int{0, 1, 2}
 	s2s.FaultSeqs = seqRange(3, 20) // mostly packets: handshake units are covered by hs-graph
 	js = append(js, &job{name: "stream2-sim", p: s2s, mode: "sim", sim: &tlc.Sim{Num: pick(200, 3000), Depth: 50, Seed: seed*31 + 3}})
@@ -105,6 +121,7 @@ func jobs(ctx *vrun.Ctx) []*job {
 	long.Ignore = []bool{false, true}
 	long.Sizes = []int{0, 1, 40, 1000}
 	long.MaxApp, long.MaxFlight, long.MaxFaults = 520, 3, 0
+	long.MaxRefused = 2
 	long.TrackNonces = false
 	long.Scenarios = []scen{{gI: G[rng.Intn(6)], gR: G[rng.Intn(6)], dI: rng.Intn(3), dR: rng.Intn(3), hello: "v2"}}
 	js = append(js, &job{name: "long", p: long, mode: "sim", realRI: true, needLong: true,
@@ -125,6 +142,7 @@ func jobs(ctx *vrun.Ctx) []*job {
 	big := base()
 	big.Sizes = []int{0, 65536, 16777215}
 	big.MaxApp, big.MaxFlight, big.MaxFaults = 2, 2, 0
+	big.MaxRefused = 1
 	big.Scenarios = []scen{{gI: 1, gR: 0, dI: 0, dR: 1, hello: "v2"}}
 	js = append(js, &job{name: "big", p: big, mode: "graph", maxPaths: pick(3, 40)})
 	return js
